@@ -29,7 +29,8 @@ RULE = ('case = (conversation, partition of each peer burst into segments, recv 
         'segment pending at start or not); distinct = (conversation, cut set, recv size, pending); non-trivial '
         '= at least one cut that is not a PDU boundary or several PDUs in one segment')
 ASSUMPTIONS = ['a peer never sends beyond what causality allows (bursts are separated by local-user steps)']
-REQUIRED = ['oracle.differential', 'monitor.pdu-count-conservation', 'oracle.straddled-local-step']
+REQUIRED = ['oracle.differential', 'monitor.pdu-count-conservation', 'oracle.straddled-local-step', 'oracle.long-stream',
+            'oracle.simultaneous-local-step']
 
 RECV_SIZES = [65536, 16, 7]
 PDU_EVENTS = {2, 3, 5, 9, 11, 12, 15, 18}     # 0-based event numbers raised for received PDUs
@@ -140,11 +141,16 @@ def plan(tier, seed):
             for recv in RECV_SIZES:
                 specs.append({'name': name, 'recv': recv, 'pending': recv == 16, 'eof': True})
     specs.append({'name': 'straddle'})
+    specs.append({'name': 'long'})
     return specs
 
 
 def run_shard(spec, tier, seed):
     res = Result()
+    if spec['name'] == 'long':
+        from . import c03long
+        c03long.run(res, tier, seed)
+        return res
     if spec['name'] == 'straddle':
         from . import c03straddle
         c03straddle.run(res, tier, seed)
@@ -174,6 +180,10 @@ def run_shard(spec, tier, seed):
 
 def replay(case):
     res = Result()
+    if case.get('long'):
+        from . import c03long
+        c03long.run(res, 'quick', 0, replay_case=case)
+        return res
     if case.get('straddle'):
         from . import c03straddle
         c03straddle.run(res, 'quick', 0, replay_case=case)
